@@ -883,7 +883,7 @@ def gen_c03(rng, n, tier):
                 # tx_hub picks (signatures of too few / enough / unregistered validators, a plain proof, a hash mismatch)
                 ws = g.tx_hub().split()
                 if r.random() < 0.3:
-                    ws[8] = r.choice(["msig1", "msig2", "msig5", "none", "false", "ok"])
+                    ws[8] = r.choice(["msig1", "msig2", "msig5", "msigd2", "msigd4", "none", "false", "ok"])
             else:
                 if r.random() < 0.6:
                     tx = g.tx_req()
@@ -937,7 +937,7 @@ def mon_c03(h, obs):
                 if len(parts) == 3 and parts[0] != "1356":
                     # relayed from another BitXHub: verified by more than (n-1)/3 signatures of that hub's registered validators —
                     # the only such hub of these histories is 9999 with four validators (proof kind msig<k>: k valid signatures)
-                    verified = interhub and parts[0] == "9999" and tx.proof.startswith("msig") and tx.proof[4:].isdigit() and int(tx.proof[4:]) >= 2
+                    verified = interhub and parts[0] == "9999" and tx.proof.startswith("msig") and tx.proof[4:].isdigit() and int(tx.proof[4:]) >= 2   # (msigd<k>: one signer k times, never enough)
                 if rc.ok and not verified:
                     hits.append(Hit(f"C03/unverified-ibtp-accepted/{tx.proof}", f"tx {j} of block {b.h}: proof={tx.proof} origin={origin} got a successful receipt", detail=b.op))
                 if not verified and j in {v[0] for vs in b.counter.values() for v in vs}:
